@@ -19,12 +19,15 @@ import (
 	"bufio"
 	"bytes"
 	"compress/flate"
+	"context"
 	"crypto/sha1"
+	"crypto/tls"
 	"encoding/base64"
 	"errors"
 	"fmt"
 	"hash/fnv"
 	"io"
+	"net"
 	"net/http"
 	"net/url"
 	"sort"
@@ -146,8 +149,11 @@ func drawTemplate(t *rapid.T, light bool) template {
 	h.Chunks = gen.Chunks(t, "hs.chunks")
 
 	kinds := plainKinds
+	if tp.Client {
+		kinds = append(append([]string(nil), plainKinds...), "wss-dial")
+	}
 	if tp.flate() {
-		kinds = append(append([]string(nil), plainKinds...), flateKinds...)
+		kinds = append(append([]string(nil), kinds...), flateKinds...)
 		if !light {
 			kinds = append(kinds, flateKinds...)
 		}
@@ -1020,6 +1026,99 @@ func (s *session) stepCompiled(o op) {
 	s.logf("%s err=%s wrote=%s", name, renderErr(err), renderWire(rec.Bytes()))
 }
 
+// --- wss dial through the Dialer value all sessions share --------------------
+
+// sharedTLS / sharedDialer play the role of an application-wide Dialer: one
+// value (and one user-supplied *tls.Config with empty ServerName) used by every
+// session. The library documents that such a config is cloned per dial.
+var (
+	sharedTLS    = &tls.Config{MinVersion: tls.VersionTLS12}
+	sharedDialer = ws.Dialer{TLSConfig: sharedTLS, NetDial: func(ctx context.Context, network, addr string) (net.Conn, error) {
+		if c, ok := wssConns.Load(addr); ok {
+			return c.(net.Conn), nil
+		}
+		return nil, fmt.Errorf("harness: no in-memory peer registered for %s", addr)
+	}}
+	wssConns sync.Map // "host:443" -> the dialing session's in-memory conn
+)
+
+// clientHelloSNI extracts the host name of the server_name extension from the
+// first TLS record of b ("" if there is none, "?" if b is not a ClientHello).
+func clientHelloSNI(b []byte) string {
+	if len(b) < 5 || b[0] != 0x16 {
+		return "?"
+	}
+	n := int(b[3])<<8 | int(b[4])
+	b = b[5:]
+	if n > len(b) {
+		return "?"
+	}
+	b = b[:n]
+	if len(b) < 4 || b[0] != 1 {
+		return "?"
+	}
+	b = b[4:]
+	skip := func(k int) bool {
+		if len(b) < k {
+			return false
+		}
+		b = b[k:]
+		return true
+	}
+	vec := func(lenBytes int) bool {
+		if len(b) < lenBytes {
+			return false
+		}
+		l := 0
+		for i := 0; i < lenBytes; i++ {
+			l = l<<8 | int(b[i])
+		}
+		return skip(lenBytes + l)
+	}
+	if !skip(2+32) || !vec(1) || !vec(2) || !vec(1) || len(b) < 2 {
+		return "?"
+	}
+	b = b[2:]
+	for len(b) >= 4 {
+		typ, l := int(b[0])<<8|int(b[1]), int(b[2])<<8|int(b[3])
+		b = b[4:]
+		if l > len(b) {
+			return "?"
+		}
+		if typ == 0 {
+			e := b[:l]
+			if len(e) < 5 || e[2] != 0 {
+				return "?"
+			}
+			nl := int(e[3])<<8 | int(e[4])
+			if 5+nl > len(e) {
+				return "?"
+			}
+			return string(e[5 : 5+nl])
+		}
+		b = b[l:]
+	}
+	return ""
+}
+
+// stepWssDial dials wss://<host of this session>/ with the shared Dialer over
+// an in-memory conn whose peer hangs up after the ClientHello: the dial fails,
+// the ClientHello shows for which host the TLS client was configured.
+func (s *session) stepWssDial(o op) {
+	host := fmt.Sprintf("h%d-%s.test", s.id, word(s.id, 1000+o.idx*16, 6))
+	rec := tx.NewRec()
+	conn := &tx.MemConn{R: s.src(nil, nil), W: s.dst(rec)}
+	wssConns.Store(host+":443", conn)
+	c, br, _, err := sharedDialer.Dial(context.Background(), "wss://"+host+"/"+word(s.id, 1001+o.idx*16, 4))
+	wssConns.Delete(host + ":443")
+	if br != nil {
+		ws.PutReader(br)
+	}
+	sni := clientHelloSNI(rec.Bytes())
+	s.logf("host=%s failed=%t conn-nil=%t closed=%t client-hello-sni=%q", host, err != nil, c == nil, conn.Closed, sni)
+	s.expect(sni == host, "wss dial to %s: the TLS ClientHello names %q", host, sni)
+}
+
 // --- compression ------------------------------------------------------------
 
 func flateCtor(w io.Writer) wsflate.Compressor {
@@ -1223,6 +1322,8 @@ func (s *session) step() {
 			s.stepPong(o)
 		case "compiled":
 			s.stepCompiled(o)
+		case "wss-dial":
+			s.stepWssDial(o)
 		case "close":
 			s.stepClose(o, false)
 		case "close-bad":
